@@ -21,6 +21,8 @@ ASSUMPTIONS = [
     "claimed in part: (1) the M-step / covariance update on symbolic data, responsibilities and sample weights (exact reals); "
     "(2) the control logic of the hierarchical model with the inner GaussianMixture replaced by a contract double (arbitrary BIC values, "
     "arbitrary child labels). E-step/BIC numerics (scipy pdf), EM convergence, k-means++ initialisation, 'tied'/'spherical' are outside the claim",
+    "round-off obligations use the standard model of binary64 arithmetic (vf.engine.rnd): a proof there is a proof for the real arithmetic, a counterexample is only a candidate until replayed on doubles",
+    "the k-means++ initialisation is run on symbolic 1-d data with the range abstraction of exp (0 below -745.1); the centre selection draws are symbolic",
 ]
 
 
